@@ -282,9 +282,9 @@ PROP = Prop(
           "identical, both empty, of different geometry, or of different hash strategy (two different strategies of the zoo); intersection / union / "
           "Jaccard are called in both orders, operands snapshotted around every call, foreign operands tried. Every case is non-trivial; distinct by hash of (parameters, fed keys)."),
     workloads=[
-        Workload("bloom_pairs", wl_bloom_pairs, quick=900, thorough=60000),
-        Workload("counting_pairs", wl_counting_pairs, quick=500, thorough=40000),
-        Workload("sketch_pairs", wl_sketch_pairs, quick=500, thorough=30000),
+        Workload("bloom_pairs", wl_bloom_pairs, quick=900, thorough=240000),
+        Workload("counting_pairs", wl_counting_pairs, quick=500, thorough=160000),
+        Workload("sketch_pairs", wl_sketch_pairs, quick=500, thorough=120000),
     ],
     assumptions=["compatibility is decided from the public number_bits / number_hashes and from whether the same strategy object was supplied; "
                  "'different hash function' pairs are two different strategies of the zoo (they differ on every key, including the library's probe key)",
